@@ -125,18 +125,47 @@ def check(repo: Repo) -> Result:
     r4 = res.rule("C05-R4", "_cancel_mul: the factor that replaces a cancelled pair is the pair's scale, only for a dimensionless pair", floor=3)
     fn = uo.func("_cancel_mul")
     res.fn(fn)
-    blk = [n for n in ast.walk(fn.node) if isinstance(n, ast.If) and any(norm(s) == "expr = expr / pair[0]" for s in n.body)]
-    if len(blk) != 1:
-        raise AnalysisError(f"{fn.where()}: pair-cancelling block not found")
-    b = blk[0]
-    res.check(norm(b.test) in ("prod.dimensions == 1", "prod.dimensions == sympy_one", "prod.dimensions is sympy_one"), "only-dimensionless", fn.where(b), "a pair may be cancelled only when its product is dimensionless", "prod.dimensions == 1", norm(b.test), rid=r4)
-    txt = [norm(s) for s in b.body]
-    res.check("expr = expr / pair[0]" in txt and "expr = expr / pair[1]" in txt, "remove-both", fn.where(b), "both members of the cancelled pair are divided out of the expression", found=txt, rid=r4)
-    res.check("value = prod.base_value" in txt and any(norm(s) == "expr *= value" for s in ast.walk(b) if isinstance(s, ast.AugAssign)), "reinsert-scale", fn.where(b), "the pair's scale (prod.base_value) is multiplied back into the expression", found=txt, rid=r4)
-    prod = [norm(n.value) for n in walk_no_nested(fn.node) if isinstance(n, ast.Assign) and norm(n.targets[0]) == "prod"]
-    u12 = {norm(n.targets[0]): norm(n.value) for n in walk_no_nested(fn.node) if isinstance(n, ast.Assign) and norm(n.targets[0]) in ("u1", "u2")}
-    ok = prod == ["u1 * u2"] and u12 == {"u1": "_create_unit_from_factor(pair[0], registry)", "u2": "_create_unit_from_factor(pair[1], registry)"}
-    res.check(ok, "pair-product", fn.where(), "prod is the product of the units of exactly the two factors that are removed", found=(prod, u12), rid=r4)
+    from engine.sem import summarise
+
+    loops = [n for n in fn.body if isinstance(n, ast.While)]
+    if len(loops) != 1:
+        raise AnalysisError(f"{fn.where()}: pair loop not found")
+    ex, rg = fn.params[0], fn.params[1]
+    sums = summarise(fn, body=loops[0].body, keep={rg, "pairs_to_consider", "uncancelable_pairs"})
+    # the pair under consideration (a local bound from the work list)
+    pv = None
+    for x in sums:
+        for e in x.effects:
+            if e.endswith("= pairs_to_consider.pop()"):
+                pv = e.split(" = ")[0]
+    if pv is None:
+        raise AnalysisError(f"{fn.where()}: the pair taken from the work list was not found")
+    P = f"(_create_unit_from_factor({pv}[0], {rg}) * _create_unit_from_factor({pv}[1], {rg}))"
+    DIM = [f"{P}.dimensions == 1", f"{P}.dimensions == sympy_one", f"{P}.dimensions is sympy_one"]
+    ok_dim = ok_both = ok_scale = ok_prod = True
+    n_c = n_u = 0
+    found = []
+    for x in sums:
+        writes = [e for e in x.effects if e.startswith(f"{ex} =") or e.startswith(f"{ex} *=") or e.startswith(f"{ex} /=")]
+        dimless = any(x.has(d, True) for d in DIM)
+        notdim = any(x.has(d, False) for d in DIM)
+        if writes:
+            found.append(writes)
+            n_c += 1
+            ok_dim &= dimless
+            ok_both &= any(w.replace(" ", "") in (f"{ex}={ex}/{pv}[0]/{pv}[1]", f"{ex}={ex}/({pv}[0]*{pv}[1])", f"{ex}={ex}/{pv}[1]/{pv}[0]") for w in writes)
+            unit_scale = x.has(f"{P}.base_value == 1", True)
+            scaled = [w for w in writes if w in (f"{ex} *= {P}.base_value", f"{ex} *= int({P}.base_value)")]
+            ok_scale &= bool(scaled) != unit_scale and (unit_scale or len(scaled) == 1)
+        elif notdim:
+            n_u += 1
+        if dimless or notdim:
+            ok_prod &= True
+    ok_prod = any(any(x.has(d, True) or x.has(d, False) for d in DIM) for x in sums)
+    res.check(ok_dim and n_c >= 1, "only-dimensionless", fn.where(), "a pair may be cancelled only when its product is dimensionless", DIM[0], found[:2], rid=r4)
+    res.check(ok_both and n_c >= 1, "remove-both", fn.where(), "both members of the cancelled pair are divided out of the expression", f"{ex} = {ex} / {pv}[0] / {pv}[1]", found[:2], rid=r4)
+    res.check(ok_scale and n_c >= 2, "reinsert-scale", fn.where(), "the pair's scale (the product's base_value) is multiplied back into the expression whenever it is not 1", f"{ex} *= {P}.base_value", found[:3], rid=r4)
+    res.check(ok_prod and n_u >= 1, "pair-product", fn.where(), "the unit tested and whose scale is re-inserted is the product of the units of exactly the two factors that are removed", P, [sorted(x.facts)[:1] for x in sums][:2], rid=r4)
     # the helpers behind simplify() are evaluated against the registry's *current* table (no identity-keyed memo)
     from rules import memo_rules
 
